@@ -440,16 +440,20 @@ def _inside_random_n(S, prop):
     from tpv.tlib import Tensor
     from tpv.core import STensor
 
-    op = S.cfg
-    A, B, dom = mk_bool(S, op)
-    K = S.int("K", 1)
-    Tt = S.tensor("tt", [K, 1])
-    params = S.new(POINTS, Tt, S.new(R1, "t"))
-    n = S.int("n", 2)
+    parts = S.cfg.split("/")
+    op, withp, direct = parts[0], (parts[1] if len(parts) > 1 else "K"), len(parts) > 2
+    A, B, dom = mk_bool(S, op, with_params=(withp == "K"))
+    if withp == "K":
+        K = S.int("K", 1)
+        Tt = S.tensor("tt", [K, 1])
+        params = S.new(POINTS, Tt, S.new(R1, "t"))
+    else:
+        K, Tt, params = 1, None, empty_points(S)
+    n = S.int("n", 1 if direct else 2)
     invert = op == "cut"
 
     def Pk(k, row):
-        tk = [zreal(Tt.val.at([(k,), ()]))]
+        tk = [zreal(Tt.val.at([(k,), ()]))] if Tt is not None else []
         inb = B.in_pred(row, tk)
         return z3.And(A.in_pred(row, tk), z3.Not(inb) if invert else inb)
 
@@ -509,20 +513,28 @@ def _inside_random_n(S, prop):
 
     S.loop(fq, 0, acc_points_loop(S, "random_points", [("x", R2)], n, 2, lambda k, j, row: Pk(k, row), "parameter-loop", initial="empty"))
     S.loop(fq, 1, LoopSpec(make, check, modifies=["scaled_n", "_", "repeat_params", "number_valid", "new_points", "index_valid"], label="rejection-loop"))
-    pts = S.method(dom, "sample_random_uniform", n, None, params)
+    if direct:
+        pts = S.call(SH + "_random_points_inside", dom, A.obj, B.obj, n, params, invert, "cpu")
+    else:
+        pts = S.method(dom, "sample_random_uniform", n, None, params)
     t = tensor_of(pts)
     ok = t.rank == 2 and t.shape[1].concrete() == 2
     S.ensure("two-columns", ok)
     if not ok:
         return
-    grouped = len(t.shape[0].factors) == 2 and z3.eq(t.shape[0].factors[0], zint(K))
+    if withp == "K":
+        grouped = len(t.shape[0].factors) == 2 and z3.eq(t.shape[0].factors[0], zint(K))
+        rowk = lambda q: zint(q[0][0])
+    else:
+        grouped = len(t.shape[0].factors) == 1
+        rowk = lambda q: z3.IntVal(0)
     if prop == "C02":
         S.ensure("n-rows-per-parameter-row", t.shape[0].size_term() == zint(K) * zint(n))
         S.ensure("grouped-by-parameter-row", grouped)
         return
     S.ensure("row-structure", grouped)
     if grouped:
-        S.forall("every-row-in-the-composite-set-at-its-own-parameter-row", t, lambda q: Pk(zint(q[0][0]), cols(t, q[0], 2)))
+        S.forall("every-row-in-the-composite-set-at-its-own-parameter-row", t, lambda q: Pk(rowk(q), cols(t, q[0], 2)))
 
 
 for _prop in ("C01", "C02"):
@@ -530,7 +542,55 @@ for _prop in ("C01", "C02"):
         _inside_random_n(S, _prop)
     _k.__name__ = "cut_intersection_random_n"
     _k.__doc__ = _inside_random_n.__doc__
-    scenario(_prop, [SH + "_inside_random_with_n", SH + "_random_points_inside", SH + "_check_in_b", CUT + ".sample_random_uniform", INTER + ".sample_random_uniform"], configs=["cut", "intersection"])(_k)
+    scenario(_prop, [SH + "_inside_random_with_n", SH + "_random_points_inside", SH + "_check_in_b", CUT + ".sample_random_uniform", INTER + ".sample_random_uniform"], configs=["cut", "intersection", "cut/K/direct", "cut/none/direct", "intersection/K/direct", "intersection/none/direct"])(_k)
+
+
+def search_loop_spec(S, rows, Pk, with_use_b=False):
+    """while-loop contract of the n = 1 helpers: final_points is [K', 2], found_valid is [K', 1] (bool) with
+    K' = max(len(params), 1); every row r with found_valid[r] satisfies Pk(r, final_points[r])"""
+    from tpv.spec import LoopSpec
+    from tpv.tlib import Tensor
+
+    rdim = core.dim_of(rows)
+    rowterm = lambda comp: zint(comp[0]) if comp else z3.IntVal(0)
+
+    def make(I_, env, _):
+        FV = S.tensor(core.fresh_name("FV"), [rows, 1], dtype="bool", mutable=True)
+        FV0 = FV.val  # the value at loop head (the cell FV is updated in place by the body)
+        FPname = core.fresh_name("FP")
+        f = z3.Function(FPname, z3.IntSort(), z3.IntSort(), z3.RealSort())
+
+        def fn(idx):
+            r = rowterm(idx[0])
+            row = [f(r, z3.IntVal(c)) for c in range(2)]
+            I_.ctx.axiom(z3.Implies(z3.And(r >= 0, r < zint(rows), zbool(FV0.at([idx[0], ()]))), Pk(r, row)))
+            return core.select_comp(idx[1][0], 2, [(lambda x=x: x) for x in row])
+
+        if with_use_b:
+            env.vars["use_b"] = bool(I_.choose(2, "use_b"))
+        env.vars["final_points"] = Tensor(core.STensor([rdim, Dim([2])], fn, "real", FPname))
+        env.vars["found_valid"] = FV
+
+    def check(I_, env, _, tag):
+        fp, fv = env.vars.get("final_points"), env.vars.get("found_valid")
+        if with_use_b:
+            S.ensure(f"search-loop/{tag}:use-b-is-a-bool", isinstance(env.vars.get("use_b"), bool), kind="inv")
+        ok = isinstance(fp, Tensor) and isinstance(fv, Tensor) and fp.val.rank == 2 and fv.val.rank == 2 and fv.val.dtype == "bool"
+        S.ensure(f"search-loop/{tag}:state-shape", ok, kind="inv")
+        if not ok:
+            return
+        S.ensure(f"search-loop/{tag}:one-row-per-parameter-row", z3.And(fp.val.shape[0].size_term() == zint(rows), fv.val.shape[0].size_term() == zint(rows)), kind="inv")
+        S.ensure(f"search-loop/{tag}:column-counts", fp.val.shape[1].concrete() == 2 and fv.val.shape[1].concrete() == 1, kind="inv")
+        if not (fp.val.shape[1].concrete() == 2 and fv.val.shape[1].concrete() == 1 and len(fp.val.shape[0].factors) == len(rdim.factors) == len(fv.val.shape[0].factors)):
+            return
+
+        def goal(q):
+            r = rowterm(q[0])
+            return z3.Implies(zbool(fv.val.at([q[0], ()])), Pk(r, cols(fp.val, q[0], 2)))
+
+        S.forall(f"search-loop/{tag}:every-found-row-lies-in-the-composite-set-at-its-parameter-row", fp, goal, kind="inv")
+
+    return LoopSpec(make, check, modifies=["final_points", "found_valid"] + (["use_b"] if with_use_b else []), label="search-loop")
 
 
 def _inside_random_one(S, prop):
@@ -559,43 +619,8 @@ def _inside_random_one(S, prop):
 
     fq = SH + "_random_points_if_n_eq_1"
     rdim = core.dim_of(rows)
-
-    def rowterm(comp):
-        return zint(comp[0]) if comp else z3.IntVal(0)
-
-    def make(I_, env, _):
-        FV = S.tensor(core.fresh_name("FV"), [rows, 1], dtype="bool", mutable=True)
-        FV0 = FV.val  # the value at loop head (the cell FV is updated in place by the body)
-        FPname = core.fresh_name("FP")
-        f = z3.Function(FPname, z3.IntSort(), z3.IntSort(), z3.RealSort())
-
-        def fn(idx):
-            r = rowterm(idx[0])
-            row = [f(r, z3.IntVal(c)) for c in range(2)]
-            I_.ctx.axiom(z3.Implies(z3.And(r >= 0, r < zint(rows), zbool(FV0.at([idx[0], ()]))), Pk(r, row)))
-            return core.select_comp(idx[1][0], 2, [(lambda x=x: x) for x in row])
-
-        env.vars["final_points"] = Tensor(core.STensor([rdim, Dim([2])], fn, "real", FPname))
-        env.vars["found_valid"] = FV
-
-    def check(I_, env, _, tag):
-        fp, fv = env.vars.get("final_points"), env.vars.get("found_valid")
-        ok = isinstance(fp, Tensor) and isinstance(fv, Tensor) and fp.val.rank == 2 and fv.val.rank == 2 and fv.val.dtype == "bool"
-        S.ensure(f"search-loop/{tag}:state-shape", ok, kind="inv")
-        if not ok:
-            return
-        S.ensure(f"search-loop/{tag}:one-row-per-parameter-row", z3.And(fp.val.shape[0].size_term() == zint(rows), fv.val.shape[0].size_term() == zint(rows)), kind="inv")
-        S.ensure(f"search-loop/{tag}:column-counts", fp.val.shape[1].concrete() == 2 and fv.val.shape[1].concrete() == 1, kind="inv")
-        if not (fp.val.shape[1].concrete() == 2 and fv.val.shape[1].concrete() == 1 and len(fp.val.shape[0].factors) == len(rdim.factors) == len(fv.val.shape[0].factors)):
-            return
-
-        def goal(q):
-            r = rowterm(q[0])
-            return z3.Implies(zbool(fv.val.at([q[0], ()])), Pk(r, cols(fp.val, q[0], 2)))
-
-        S.forall(f"search-loop/{tag}:every-found-row-lies-in-the-composite-set-at-its-parameter-row", fp, goal, kind="inv")
-
-    S.loop(fq, 0, LoopSpec(make, check, modifies=["final_points", "found_valid"], label="search-loop"))
+    rowterm = lambda comp: zint(comp[0]) if comp else z3.IntVal(0)
+    S.loop(fq, 0, search_loop_spec(S, rows, Pk))
     pts = S.method(dom, "sample_random_uniform", 1, None, params)
     t = tensor_of(pts)
     ok = t.rank == 2 and t.shape[1].concrete() == 2
@@ -619,6 +644,338 @@ for _prop in ("C01", "C02"):
     _k1.__name__ = "cut_intersection_random_one_point"
     _k1.__doc__ = _inside_random_one.__doc__
     scenario(_prop, [SH + "_inside_random_with_n", SH + "_random_points_if_n_eq_1", SH + "_check_in_b", CUT + ".sample_random_uniform", INTER + ".sample_random_uniform"], configs=["cut/K", "cut/none", "intersection/K", "intersection/none"])(_k1)
+
+
+def composite_points_summary(S, A, B, invert, dom, what):
+    """contract of sampler_helper._random_points_inside / _inside_grid_with_n used at inner call sites (proved by
+    the scenarios cut_intersection_random_n[*/direct] and cut_intersection_grid_n):
+    requires n >= 1;  ensures a fresh Points in the composite's space with rows [K', n], row (k, j) in A and
+    (not) in B at parameter row k"""
+    from tpv.core import STensor, dim_of
+    from tpv.tlib import Tensor
+    from tpv.tshape import split_digits
+
+    def summary(I, fn, args, kwargs):
+        env = I.bind_args(fn, args, kwargs)
+        n, params = env.vars["n"], env.vars["params"]
+        if what == "grid" and I.truth(I.compare(ast.Gt(), I.pylib.b_len(I, params), 1)):
+            return NotImplemented  # the outer call (several parameter rows) is the one being verified
+        I.ctx.oblige(f"pre@{I.ctx.loc}:{fn.name}:n-at-least-one", zint(n) >= 1, (), "pre")
+        I.ctx.oblige(f"pre@{I.ctx.loc}:{fn.name}:invert-flag", bool(env.vars["invert"]) == bool(invert), (), "pre")
+        I.ctx.oblige(f"pre@{I.ctx.loc}:{fn.name}:operands", env.vars["domain_a"] is A.obj and env.vars["domain_b"] is B.obj and env.vars["main_domain"] is dom, (), "pre")
+        has = I.truth(I.compare(ast.Gt(), I.pylib.b_len(I, params), 0))
+        pc = coords_of(I, params) if has else {}
+        pd = params.f["_t"].val.shape[0] if has else Dim([])
+        unmerged = list(pd.factors) + list(dim_of(n).factors)
+        rows = Dim(unmerged)
+        f = z3.Function(core.fresh_name(f"{what}_pts"), *([z3.IntSort()] * len(rows.factors) + [z3.IntSort(), z3.RealSort()]))
+
+        def fnv(idx):
+            comps = idx[0]
+            xs = [f(*([zint(c) for c in comps] + [z3.IntVal(k)])) for k in range(2)]
+            kd = tuple(split_digits(unmerged, comps)[: len(pd.factors)])
+            tk = [zreal(pc["t"].at([kd, ()]))] if has else []
+            inb = B.in_pred(xs, tk)
+            hy = core.index_hyps(rows, comps)
+            I.ctx.axiom(z3.Implies(z3.And(hy) if hy else z3.BoolVal(True), z3.And(A.in_pred(xs, tk), z3.Not(inb) if invert else inb)))
+            return core.select_comp(idx[1][0], 2, [(lambda x=x: x) for x in xs])
+
+        t = Tensor(STensor([rows, Dim([2])], fnv, "real"))
+        return I.instantiate(I.repo.find(POINTS), [t, dom.f["space"]], {})
+
+    return summary
+
+
+def _inside_grid_n(S, prop):
+    """CutDomain / IntersectionDomain.sample_grid(n, params): sampler_helper._inside_grid_with_n.
+    none / one parameter row: the straight-line body (first grid accepted only if ALL n points are valid -- needs
+    the enumeration lemma j <= sel(j) of torch.where --, re-scaled grid filtered and cut to n, random fill-up through
+    the separately proved contract of _random_points_inside).
+    K >= 2 parameter rows: the loop over the rows, inner calls through the function's own contract."""
+    from .samplers import acc_points_loop
+
+    op, withp = S.cfg.split("/")
+    A, B, dom = mk_bool(S, op, with_params=(withp != "none"))
+    invert = op == "cut"
+    n = S.int("n", 1)
+    if withp == "none":
+        K, Tt, params = 1, None, empty_points(S)
+    else:
+        K = 1 if withp == "1" else S.int("K", 2)
+        Tt = S.tensor("tt", [K, 1])
+        params = S.new(POINTS, Tt, S.new(R1, "t"))
+
+    def Pk(k, row):
+        tk = [zreal(Tt.val.at([(k,) if withp == "K" else (), ()]))] if Tt is not None else []
+        inb = B.in_pred(row, tk)
+        return z3.And(A.in_pred(row, tk), z3.Not(inb) if invert else inb)
+
+    S.use_contract(SH + "_random_points_inside", composite_points_summary(S, A, B, invert, dom, "random"))
+    if withp == "K":
+        S.use_contract(SH + "_inside_grid_with_n", composite_points_summary(S, A, B, invert, dom, "grid"))
+        S.loop(SH + "_inside_grid_with_n", 0, acc_points_loop(S, "grid", [("x", R2)], n, 2, lambda k, j, row: Pk(k, row), "parameter-loop", initial="empty"))
+    pts = S.method(dom, "sample_grid", n, None, params)
+    t = tensor_of(pts)
+    ok = t.rank == 2 and t.shape[1].concrete() == 2
+    S.ensure("two-columns", ok)
+    if not ok:
+        return
+    if prop == "C02":
+        S.ensure("n-rows-per-parameter-row", t.shape[0].size_term() == zint(K) * zint(n))
+        if withp == "K":
+            S.ensure("grouped-by-parameter-row", len(t.shape[0].factors) == 2 and z3.eq(t.shape[0].factors[0], zint(K)))
+        S.ensure("space-is-domain-space", S.I.truth(S.I.compare(ast.Eq(), S.getattr(pts, "space"), S.getattr(dom, "space"))))
+        return
+    if withp == "K":
+        grouped = len(t.shape[0].factors) == 2 and z3.eq(t.shape[0].factors[0], zint(K))
+        S.ensure("row-structure", grouped)
+        if not grouped:
+            return
+        S.forall("every-row-in-the-composite-set-at-its-own-parameter-row", t, lambda q: Pk(zint(q[0][0]), cols(t, q[0], 2)))
+    else:
+        S.forall("every-row-in-the-composite-set-at-its-own-parameter-row", t, lambda q: Pk(0, cols(t, q[0], 2)),
+                 extra_hyps=lambda q: S.schema_instances([q[0]], kinds=("all",)))
+
+
+for _prop in ("C01", "C02"):
+    def _kg(S, _prop=_prop):
+        _inside_grid_n(S, _prop)
+    _kg.__name__ = "cut_intersection_grid_n"
+    _kg.__doc__ = _inside_grid_n.__doc__
+    scenario(_prop, [SH + "_inside_grid_with_n", SH + "_check_in_b", CUT + ".sample_grid", INTER + ".sample_grid", DOMAIN + "._repeat_params"], configs=["cut/none", "cut/1", "cut/K", "intersection/none", "intersection/1", "intersection/K"])(_kg)
+
+
+def _bd_pred(op, A, B, pvals):
+    """row predicate of the Boolean boundary: regularised CSG formula (pre: operand boundaries are closed subsets)"""
+    def P(k, row):
+        p = pvals(k)
+        inA, inB = A.in_pred(row, p), B.in_pred(row, p)
+        onA, onB = A.boundary.in_pred(row, p), B.boundary.in_pred(row, p)
+        closed = z3.And(z3.Implies(onA, inA), z3.Implies(onB, inB))
+        return z3.Implies(closed, bd_oracle(op, inA, inB, onA, onB))
+    return P
+
+
+def bd_accumulate_loop(S, P, cur_k, label):
+    """while-loop contract of sampler_helper._random_points_boundary:  ith_points is Points.empty() or a Points in
+    the domain's space whose m >= 0 rows all satisfy the boundary predicate at the current parameter row; use_b is
+    a bool.  Termination is NOT proved."""
+    from tpv.spec import LoopSpec
+    from tpv.tlib import Tensor
+    from tpv.core import STensor
+
+    def make(I_, env, _):
+        env.vars["use_b"] = bool(I_.choose(2, "use_b"))
+        env.vars["_"] = None
+        if I_.choose(2, "empty-or-points") == 0:
+            env.vars["ith_points"] = empty_points(S)
+            return
+        m = z3.Int(core.fresh_name("nacc"))
+        I_.ctx.assume(m >= 0)
+        nm = core.fresh_name("bd_acc")
+        f = z3.Function(nm, z3.IntSort(), z3.IntSort(), z3.RealSort())
+        kk = cur_k(env)
+
+        def fn(idx):
+            r = zint(idx[0][0])
+            row = [f(r, z3.IntVal(c)) for c in range(2)]
+            I_.ctx.axiom(z3.Implies(z3.And(r >= 0, r < m), P(kk, row)))
+            return core.select_comp(idx[1][0], 2, [(lambda x=x: x) for x in row])
+
+        env.vars["ith_points"] = S.new(POINTS, Tensor(STensor([Dim([m]), Dim([2])], fn, "real", nm)), S.new(R2, "x"))
+
+    def check(I_, env, _, tag):
+        v = env.vars.get("ith_points", "<unset>")
+        S.ensure(f"{label}/{tag}:use-b-is-a-bool", isinstance(env.vars.get("use_b"), bool), kind="inv")
+        isp = v != "<unset>" and v is not None and hasattr(v, "f") and "_t" in v.f
+        S.ensure(f"{label}/{tag}:accumulator-is-a-point-set", isp, kind="inv")
+        if not isp:
+            return
+        t = v.f["_t"].val
+        if t.numel_concrete() == 0 and not list(v.f["space"].native.keys()):
+            return  # Points.empty()
+        ok = t.rank == 2 and t.shape[1].concrete() == 2
+        S.ensure(f"{label}/{tag}:columns", ok, kind="inv")
+        if not ok:
+            return
+        S.ensure(f"{label}/{tag}:space", list(v.f["space"].native.keys()) == ["x"], kind="inv")
+        kk = cur_k(env)
+        S.forall(f"{label}/{tag}:every-kept-row-lies-on-the-composite-boundary", t, lambda q: P(kk, cols(t, q[0], 2)), kind="inv")
+
+    return LoopSpec(make, check, modifies=["ith_points", "use_b", "_"], label=label)
+
+
+def _boundary_random_n(S, prop):
+    """Union/Cut/IntersectionBoundaryDomain.sample_random_uniform(n, params): sampler_helper._random_points_boundary
+    (+ _compute_boundary_ratio).  Outer loop over the parameter rows (blocks [i, n]), inner accumulate-and-filter
+    loop alternating between the two operand boundaries; the filter is the real <Op>BoundaryDomain._contains."""
+    from .samplers import acc_points_loop
+
+    op, withp = S.cfg.split("/")[:2]
+    direct = S.cfg.endswith("/direct")
+    A, B, dom = mk_bool(S, op, with_params=(withp == "K"))
+    bd = S.getattr(dom, "boundary")
+    if withp == "K":
+        K = S.int("K", 1)
+        Tt = S.tensor("tt", [K, 1])
+        params = S.new(POINTS, Tt, S.new(R1, "t"))
+        pv = lambda k: [zreal(Tt.val.at([(k,), ()]))]
+    else:
+        K, params, pv = 1, empty_points(S), (lambda k: [])
+    n = S.int("n", 1 if direct else 2)
+    P = _bd_pred(op, A, B, pv)
+    fq = SH + "_random_points_boundary"
+    S.loop(fq, 0, acc_points_loop(S, "random_points", [("x", R2)], n, 2, lambda k, j, row: P(k, row), "parameter-loop", initial="empty"))
+    S.loop(fq, 1, bd_accumulate_loop(S, P, lambda env: zint(env.lookup("i")[1]), "accumulate-loop"))
+    if direct:
+        pts = S.call(fq, bd, A.obj, B.obj, n, params, "cpu")
+    else:
+        pts = S.method(bd, "sample_random_uniform", n, None, params)
+    t = tensor_of(pts)
+    ok = t.rank == 2 and t.shape[1].concrete() == 2
+    S.ensure("two-columns", ok)
+    if not ok:
+        return
+    if withp == "K":
+        grouped = len(t.shape[0].factors) == 2 and z3.eq(t.shape[0].factors[0], zint(K))
+        rowk = lambda q: zint(q[0][0])
+    else:
+        grouped = len(t.shape[0].factors) == 1
+        rowk = lambda q: z3.IntVal(0)
+    if prop == "C02":
+        S.ensure("n-rows-per-parameter-row", t.shape[0].size_term() == zint(K) * zint(n))
+        S.ensure("grouped-by-parameter-row", grouped)
+        S.ensure("space-is-domain-space", S.I.truth(S.I.compare(ast.Eq(), S.getattr(pts, "space"), S.getattr(bd, "space"))))
+        return
+    S.ensure("row-structure", grouped)
+    if grouped:
+        S.forall("every-row-on-the-composite-boundary-at-its-own-parameter-row", t, lambda q: P(rowk(q), cols(t, q[0], 2)))
+
+
+for _prop in ("C01", "C02"):
+    def _kb(S, _prop=_prop):
+        _boundary_random_n(S, _prop)
+    _kb.__name__ = "boolean_boundary_random_n"
+    _kb.__doc__ = _boundary_random_n.__doc__
+    scenario(_prop, [SH + "_boundary_random_with_n", SH + "_random_points_boundary", SH + "_compute_boundary_ratio", UNIONB + ".sample_random_uniform", CUTB + ".sample_random_uniform", INTERB + ".sample_random_uniform", UNIONB + "._contains", CUTB + "._contains", INTERB + "._contains"],
+             configs=[f"{o}/{w}{d}" for o in ("union", "cut", "intersection") for w in ("K", "none") for d in ("", "/direct")])(_kb)
+
+
+def _boundary_random_one(S, prop):
+    """Union/Cut/IntersectionBoundaryDomain.sample_random_uniform(n = 1, params):
+    sampler_helper._random_boundary_points_if_n_eq_1 (search loop alternating between the operand boundaries)."""
+    op, withp = S.cfg.split("/")
+    A, B, dom = mk_bool(S, op, with_params=(withp == "K"))
+    bd = S.getattr(dom, "boundary")
+    if withp == "K":
+        K = S.int("K", 1)
+        Tt = S.tensor("tt", [K, 1])
+        params = S.new(POINTS, Tt, S.new(R1, "t"))
+        pv = lambda r: [zreal(Tt.val.at([(r,), ()]))]
+        rows = K
+    else:
+        params, pv, rows = empty_points(S), (lambda r: []), 1
+    P = _bd_pred(op, A, B, pv)
+    rdim = core.dim_of(rows)
+    rowterm = lambda comp: zint(comp[0]) if comp else z3.IntVal(0)
+    S.loop(SH + "_random_boundary_points_if_n_eq_1", 0, search_loop_spec(S, rows, P, with_use_b=True))
+    pts = S.method(bd, "sample_random_uniform", 1, None, params)
+    t = tensor_of(pts)
+    ok = t.rank == 2 and t.shape[1].concrete() == 2
+    S.ensure("two-columns", ok)
+    if not ok:
+        return
+    if prop == "C02":
+        S.ensure("one-row-per-parameter-row", t.shape[0].size_term() == zint(rows))
+        S.ensure("space-is-domain-space", S.I.truth(S.I.compare(ast.Eq(), S.getattr(pts, "space"), S.getattr(bd, "space"))))
+        return
+    if len(t.shape[0].factors) != len(rdim.factors):
+        S.ensure("row-structure", False)
+        return
+    S.forall("every-row-on-the-composite-boundary-at-its-own-parameter-row", t, lambda q: P(rowterm(q[0]), cols(t, q[0], 2)),
+             extra_hyps=lambda q: S.schema_instances([q[0]], kinds=("all",)))
+
+
+for _prop in ("C01", "C02"):
+    def _kb1(S, _prop=_prop):
+        _boundary_random_one(S, _prop)
+    _kb1.__name__ = "boolean_boundary_random_one_point"
+    _kb1.__doc__ = _boundary_random_one.__doc__
+    scenario(_prop, [SH + "_boundary_random_with_n", SH + "_random_boundary_points_if_n_eq_1", UNIONB + ".sample_random_uniform", CUTB + ".sample_random_uniform", INTERB + ".sample_random_uniform"],
+             configs=[f"{o}/{w}" for o in ("union", "cut", "intersection") for w in ("K", "none")])(_kb1)
+
+
+def boundary_points_summary(S, op, A, B, bd):
+    """contract of sampler_helper._random_points_boundary at inner call sites (proved by boolean_boundary_random_n
+    [*/direct]): requires n >= 1; ensures a fresh Points with rows [K', n], row (k, j) on the composite boundary at
+    parameter row k"""
+    from tpv.core import STensor, dim_of
+    from tpv.tlib import Tensor
+    from tpv.tshape import split_digits
+
+    def summary(I, fn, args, kwargs):
+        env = I.bind_args(fn, args, kwargs)
+        n, params = env.vars["n"], env.vars["params"]
+        I.ctx.oblige(f"pre@{I.ctx.loc}:{fn.name}:n-at-least-one", zint(n) >= 1, (), "pre")
+        I.ctx.oblige(f"pre@{I.ctx.loc}:{fn.name}:operands", env.vars["domain_a"] is A.obj and env.vars["domain_b"] is B.obj and env.vars["main_domain"] is bd, (), "pre")
+        has = I.truth(I.compare(ast.Gt(), I.pylib.b_len(I, params), 0))
+        pc = coords_of(I, params) if has else {}
+        pd = params.f["_t"].val.shape[0] if has else Dim([])
+        unmerged = list(pd.factors) + list(dim_of(n).factors)
+        rows = Dim(unmerged)
+        f = z3.Function(core.fresh_name("bd_pts"), *([z3.IntSort()] * len(rows.factors) + [z3.IntSort(), z3.RealSort()]))
+
+        def fnv(idx):
+            comps = idx[0]
+            xs = [f(*([zint(c) for c in comps] + [z3.IntVal(k)])) for k in range(2)]
+            kd = tuple(split_digits(unmerged, comps)[: len(pd.factors)])
+            P = _bd_pred(op, A, B, lambda k: ([zreal(pc["t"].at([kd, ()]))] if has else []))
+            hy = core.index_hyps(rows, comps)
+            I.ctx.axiom(z3.Implies(z3.And(hy) if hy else z3.BoolVal(True), P(None, xs)))
+            return core.select_comp(idx[1][0], 2, [(lambda x=x: x) for x in xs])
+
+        t = Tensor(STensor([rows, Dim([2])], fnv, "real"))
+        return I.instantiate(I.repo.find(POINTS), [t, bd.f["space"]], {})
+
+    return summary
+
+
+def _boundary_grid_n(S, prop):
+    """Union/Cut/IntersectionBoundaryDomain.sample_grid(n, params) for at most one parameter row (more rows are
+    rejected by the library with an exception): sampler_helper._boundary_grid_with_n, _check_points_on_main_boundary;
+    the random fill-up goes through the separately proved contract of _random_points_boundary."""
+    op, withp = S.cfg.split("/")
+    A, B, dom = mk_bool(S, op, with_params=(withp != "none"))
+    bd = S.getattr(dom, "boundary")
+    n = S.int("n", 1)
+    if withp == "none":
+        params, pv = empty_points(S), (lambda k: [])
+    else:
+        Tt = S.tensor("tt", [1, 1])
+        params = S.new(POINTS, Tt, S.new(R1, "t"))
+        pv = lambda k: [zreal(Tt.val.at([(), ()]))]
+    P = _bd_pred(op, A, B, pv)
+    S.use_contract(SH + "_random_points_boundary", boundary_points_summary(S, op, A, B, bd))
+    pts = S.method(bd, "sample_grid", n, None, params)
+    t = tensor_of(pts)
+    ok = t.rank == 2 and t.shape[1].concrete() == 2
+    S.ensure("two-columns", ok)
+    if not ok:
+        return
+    if prop == "C02":
+        S.ensure("n-rows", t.shape[0].size_term() == zint(n))
+        S.ensure("space-is-domain-space", S.I.truth(S.I.compare(ast.Eq(), S.getattr(pts, "space"), S.getattr(bd, "space"))))
+        return
+    S.forall("every-row-on-the-composite-boundary", t, lambda q: P(0, cols(t, q[0], 2)))
+
+
+for _prop in ("C01", "C02"):
+    def _kbg(S, _prop=_prop):
+        _boundary_grid_n(S, _prop)
+    _kbg.__name__ = "boolean_boundary_grid_n"
+    _kbg.__doc__ = _boundary_grid_n.__doc__
+    scenario(_prop, [SH + "_boundary_grid_with_n", SH + "_check_points_on_main_boundary", UNIONB + ".sample_grid", CUTB + ".sample_grid", INTERB + ".sample_grid"],
+             configs=[f"{o}/{w}" for o in ("union", "cut", "intersection") for w in ("1", "none")])(_kbg)
 
 
 # ----------------------------------------------------------------------------- C18 boxes of moved domains
